@@ -15,15 +15,20 @@
 (*     open(archive, 'wb'); truncate(before); raise; finally remove journal*)
 (*                                                                         *)
 (* Known defects are modelled as the code behaves; the repaired behaviour  *)
-(* sits behind the Fix* constants (sets of admitted variants):             *)
+(* (fixes_proposed/C05-*, C06-*, C07-*.diff) sits behind the Fix*          *)
+(* constants (sets of admitted variants):                                  *)
 (*   rollback  FALSE: 'wb' truncates the archive to 0 before truncate(n)   *)
 (*             -> earlier records become zero bytes      (DESIGN 6, #15)   *)
+(*             TRUE: the archive is opened without truncation ('ab')       *)
 (*   offset    FALSE: payload offset = length of a RE-SERIALISATION of the *)
 (*             parsed response header                    (DESIGN 6, #14)   *)
-(*   cdx       0: header sniffing regex without DOTALL; 1: regex repaired, *)
-(*             4 KiB window; 2: whole header block       (DESIGN 6, #16)   *)
+(*             TRUE: length of the header block as received                *)
+(*   cdx       0: header sniffing regex without DOTALL (only an empty      *)
+(*             header block is recognised)               (DESIGN 6, #16);  *)
+(*             1: regex repaired, still a 4 KiB window; 2: 64 KiB window   *)
 (*   journal   FALSE: an I/O error while writing the journal leaves it     *)
-(*             behind (it is created outside the try block)                *)
+(*             behind (it is created outside the try block);               *)
+(*             TRUE: it is removed before the error is passed on           *)
 (***************************************************************************)
 EXTENDS WarcWriterProps, TLC
 
@@ -42,7 +47,8 @@ CONSTANTS
   EmptyShapes,    \* empty header block
   MaxSeq,         \* highest sequence number of a numbered file
   LenInfo, LenRec,\* abstract length of a warcinfo record / of any other record (the trace spec binds observed lengths)
-  FixRollbackSet, FixOffsetSet, FixCdxSet, FixJournalSet
+  FixRollbackSet, FixOffsetSet, FixCdxSet, FixJournalSet,
+  FixVariants     \* if not {}: the admitted variants as a set of [rollback, offset, cdx, journal] records
 
 LenOf(t) == IF t = "warcinfo" THEN LenInfo ELSE LenRec
 
@@ -60,7 +66,7 @@ VARIABLES
   ex,          \* SUBSET Files             archive paths that exist in the working directory
   cdxEx,       \* BOOLEAN                  the CDX file exists in the working directory
   pc,          \* "off" | "idle" | label of the next file-system operation
-  todo,        \* pending steps of the current activity: Seq(<<op, a, b>>)
+  todo,        \* pending steps of the current activity: Seq(<<op, a, b, c>>)
   cur, seq, winfo, appending,      \* recorder fields: _warc_filename, _sequence_num, warcinfo id, params.appending
   rec,         \* record being appended
   ap,          \* append-local: before, after, k (writes so far), bef / btail (content before), cls (failing op)
@@ -85,7 +91,8 @@ NoFault == [cls |-> "none", before |-> <<>>, after |-> <<>>, j |-> JAbs]
 
 View(f)  == IF tail[f] THEN Append(disk[f], Torn) ELSE disk[f]
 ViewAll  == [f \in Files |-> View(f)]
-FixSpace == [rollback : FixRollbackSet, offset : FixOffsetSet, cdx : FixCdxSet, journal : FixJournalSet]
+FixSpace == IF FixVariants # {} THEN FixVariants
+            ELSE [rollback : FixRollbackSet, offset : FixOffsetSet, cdx : FixCdxSet, journal : FixJournalSet]
 
 InitWith(p, fx) ==
   /\ par = p /\ fix = fx
